@@ -112,7 +112,13 @@ def build_k1(shared_instances=False):
         macrospec.MacroSpec('lv', args_parser=macrospec.VerbatimArgsParser(verbatim_arg_type='verb-macro')),
         macrospec.MacroSpec('ls', args_parser='[{'),
         macrospec.MacroSpec('lgs', args_parser=legacy_state_parser()),
+        macrospec.MacroSpec('lgm', args_parser=macrospec.MacroStandardArgsParser(
+            '{{', args_math_mode=[True, False])),
+        macrospec.std_macro('sm', True, 2),
+        macrospec.std_macro('smm', '*[{'),
+        macrospec.MacroSpec('me', ['e{^_}']),
     ], environments=[
+        macrospec.std_environment('se', '[{', is_math_mode=True),
         macrospec.EnvironmentSpec('lverb', args_parser=macrospec.VerbatimArgsParser(
             verbatim_arg_type='verbatim-environment', verbatim_environment_name='lverb')),
     ])
@@ -240,6 +246,8 @@ class DocGen(object):
         rng = self.rng
         d = max(depth - 1, 0)
         sp = rng.choice(['', '', '', ' '])
+        if spec in ('{', 'm', '[', 'o') and rng.random() < 0.07:
+            sp = rng.choice([' % c\n', '%d\n  ', '  % e\n% f\n'])    # comments / space before an argument
         if spec in ('{', 'm'):
             if rng.random() < 0.25:
                 return sp + rng.choice(['a', 'x', '\\ms', '7'])       # single-token argument
@@ -400,6 +408,10 @@ class DocGen(object):
                     return rng.choice(['\\lgs{def} % c\nx', '\\lgs{x} % d\ny', '\\lgs{x}', 'a % b\n\\lgs{def}'])
                 return '\\ls' + rng.choice(['', '[o]']) + '{' + self.text() + '}'
             if c == 3:
+                if rng.random() < 0.7:
+                    return rng.choice(['\\sm[o]{a}{b}', '\\sm{a}{b}', '\\smm*[o]{a}', '\\smm{a}',
+                                       '\\lgm{x^2 % c\n}{t % d\n}', '\\me^{a}_{b}', '\\me_x',
+                                       '\\begin{se}[o]{m}a_b % e\n\\end{se}', '\\begin{se}{m}$x$\\end{se}'])
                 return '\\begin{lverb}' + rng.choice(['a{b', 'x\n']) + '\\end{lverb}'
             return '\\unknownmacro '
         if x < 0.95:
